@@ -65,6 +65,8 @@ def main(out):
     txt += f'Definition line_body_class : ranges := {coq_ranges(body)}.\n'
     txt += f'Definition trailing_ws_class : ranges := {coq_ranges(tw)}.\n'
     txt += f'Definition non_inline_start_class : ranges := {coq_ranges(nis_cls)}.\n'
+    if not isinstance(P.ROOT_ALIASES, dict) or not all(isinstance(k, str) and isinstance(v, str) for k, v in P.ROOT_ALIASES.items()):
+        raise TranslateError('ROOT_ALIASES is no longer a dict of strings')
     al = sorted(P.ROOT_ALIASES.items())
     txt += 'Definition root_aliases : list (str * str) :=\n  ' + coq_list([f'({coq_str(k)}, {coq_str(v)})' for k, v in al]) + '.\n'
     # python str.isspace (CPython), used by str.strip()
